@@ -7,6 +7,7 @@ function installed as sys.displayhook.  The same program goes to the extracted C
 extracted hook-free specification (sem)."""
 from __future__ import annotations
 
+import copy as pycopy
 import glob
 import itertools
 import json
@@ -25,14 +26,37 @@ class Boom(Exception):
     """the exception user code raises inside a block"""
 
 
+class Maybe:
+    """ONE class; only some of its instances provide _repr_html_ (as an instance attribute),
+    the others are not valid children at all"""
+
+    def __init__(self, markup=None):
+        if markup is not None:
+            self.s = markup
+            self._repr_html_ = lambda: markup
+
+
+class MaybeT:
+    """ONE class; only some of its instances provide tagify (as an instance attribute)"""
+
+    def __init__(self, exp=None):
+        if exp is not None:
+            self.tagify = lambda: exp
+
+
 # objects kept by identity in child lists (never mutated by a program)
-CUSTOMS = [CustomObj(["x"], True), CustomReprObj(["y"], True, "<i>r</i>"), CustomObj([Tag("u")], False)]
+CUSTOMS = [CustomObj(["x"], True), CustomReprObj(["y"], True, "<i>r</i>"), CustomObj([Tag("u")], False),
+           MaybeT("m"), MaybeT(TagList("n"))]
 METAS = [MetadataNode(), HTMLDependency("dep", "1.0"), MetadataNode()]
 TAG_NAMES = ["div", "span", "p", "b", "section", "ul", "li", "em"]
-BAD_KINDS = ["set", "dict", "object", "bytes", "module", "func"]
+BAD_KINDS = ["set", "dict", "object", "bytes", "module", "func", "maybe", "maybet", "maybe", "maybet"]
 
 
 def make_bad(kind: str):
+    if kind == "maybe":
+        return Maybe()
+    if kind == "maybet":
+        return MaybeT()
     return {"set": {1, 2, 3}, "dict": {"class": "foo"}, "object": object(), "bytes": b"ab",
             "module": htmltools.tags, "func": make_bad}[kind]
 
@@ -45,7 +69,7 @@ def make_num(kind: str, text: str):
 
 # ------------------------------------------------------------------------------------
 # values:  ["N"] None | ["E"] Ellipsis | ["T", s] | ["I", kind, text] number | ["H", s] HTML
-#          | ["R", s] _repr_html_ object | ["G", t] tag | ["C", k] tagifiable | ["M", k] metadata
+#          | ["R", s] _repr_html_ object (["R", s, "inst"]: a Maybe instance carrying it) | ["G", t] tag | ["C", k] tagifiable | ["M", k] metadata
 #          | ["L", kind, items] list/tuple/taglist | ["B", kind] anything else
 # ------------------------------------------------------------------------------------
 def build(v, tags):
@@ -61,7 +85,7 @@ def build(v, tags):
     if k == "H":
         return HTML(v[1])
     if k == "R":
-        return ReprObj(v[1])
+        return Maybe(v[1]) if len(v) > 2 else ReprObj(v[1])
     if k == "G":
         return tags[v[1]]
     if k == "C":
@@ -114,7 +138,7 @@ def val_canon(v):
         return ["L", [val_canon(x) for x in v[2]]]
     if k == "B":
         return ["B"]
-    return list(v)
+    return list(v[:2])
 
 
 CHILD_SX = {"T": 0, "H": 1, "R": 2, "G": 3, "C": 4, "M": 5}
@@ -126,6 +150,8 @@ def child_sx(c):
 
 
 def stmt_sx(st):
+    if st[0] == "K":
+        return [3, st[1], st[2]]
     if st[0] == "D":
         return [0, val_sx(st[1])]
     if st[0] == "W":
@@ -134,7 +160,8 @@ def stmt_sx(st):
 
 
 def case_sx(c):
-    return [1, [0] if c["hook"] == "none" else [1], [[child_sx(k) for k in ks] for ks in c["kids"]],
+    return [1, [0] if c["hook"] == "none" else [1],
+            [[child_sx(k) for k in ks] for ks in c["kids"]] + [[] for _ in range(c.get("ncopy", 0))],
             [stmt_sx(x) for x in c["prog"]]]
 
 
@@ -203,7 +230,9 @@ def compile_prog(prog):
         for st in stmts:
             if st[0] == "D":
                 vals.append(st[1])
-                lines.append(f"{ind}sys.displayhook(V[{len(vals) - 1}])")
+                lines.append(f"{ind}sys.displayhook(V({len(vals) - 1}))")
+            elif st[0] == "K":
+                lines.append(f"{ind}T[{st[2]}] = H.copy({st[1]}, {st[2]}, {st[3]!r})")
             elif st[0] == "R":
                 lines.append(f"{ind}raise Boom()")
             else:
@@ -236,6 +265,9 @@ class Monitor:
         self.wrappers: list[list] = [[] for _ in tags]   # hooks seen installed by tag i
         self.active: list[int] = []                      # tags whose block is running
         self.exited: set[int] = set()
+        self.tainted: set[int] = set()                   # copies of tags that had been entered
+        self.entered_blocks: dict[int, bool] = {}        # block number -> __enter__ succeeded
+        self.copies: list[tuple] = []
         self.snap: dict[int, tuple] = {}
         self.problems: list[tuple[str, str]] = []
         self.reused_exited = False
@@ -243,6 +275,22 @@ class Monitor:
     def _receiver(self, n):
         parent = self.blocks[n][1]
         return self.log if parent is None else self.tags[self.blocks[parent][0]].children
+
+    def copy(self, src, dst, how):
+        """the program takes a copy of T[src]: copy.copy, or tagify() when that is the same
+        thing (no child that tagify would expand or replace)"""
+        t = self.tags[src]
+        plain = all(isinstance(c, (str, HTML, ReprObj, Maybe)) for c in t.children)
+        before = list(t.children)
+        cp = t.tagify() if (how == "tagify" and plain) else pycopy.copy(t)
+        if src in self.exited or src in self.tainted or src in self.active:
+            self.tainted.add(dst)
+        if self.check:
+            if cp is t or cp.children is t.children:
+                self.problems.append(("a copy of a tag shares the tag or its child list", f"copy {src}->{dst}"))
+            if not (len(t.children) == len(before) and all(x is y for x, y in zip(t.children, before))):
+                self.problems.append(("copying a tag changed the original", f"copy {src}->{dst}"))
+        return cp
 
     def before(self, n):
         recv = self._receiver(n)
@@ -260,6 +308,7 @@ class Monitor:
     def left(self, n, was_entered, before, after, exc):
         t = self.blocks[n][0]
         recv_before, prevs, active_before = self.snap.pop(n)
+        self.entered_blocks[n] = bool(was_entered)
         if was_entered:
             if self.active and self.active[-1] == t:
                 self.active.pop()
@@ -291,7 +340,7 @@ class Monitor:
                 if exc is None or isinstance(exc, Boom):
                     self.problems.append(("entering a tag whose block is still active did not raise",
                                           f"block {n}, tag {t}"))
-            elif t in self.exited:
+            elif t in self.exited or t in self.tainted:
                 self.reused_exited = True
             else:
                 self.problems.append(("entering a tag that was never entered failed",
@@ -330,7 +379,7 @@ def canon_obj(x, tags):
         return ["I", str(x)]
     if isinstance(x, HTML):
         return ["H", x.as_string()]
-    if isinstance(x, ReprObj):
+    if isinstance(x, ReprObj) or (isinstance(x, Maybe) and hasattr(x, "s")):
         return ["R", x.s]
     if isinstance(x, (list, tuple, TagList)):
         return ["L", [canon_obj(y, tags) for y in x]]
@@ -341,8 +390,11 @@ def execute(case):
     """run the program against the implementation -> (observation, monitor)"""
     code, vals, blocks, _src = compile_prog(case["prog"])
     tags = [Tag(TAG_NAMES[i % len(TAG_NAMES)], *[build(k, None) for k in ks])
-            for i, ks in enumerate(case["kids"])]
-    V = [build(v, tags) for v in vals]
+            for i, ks in enumerate(case["kids"])] + [None] * case.get("ncopy", 0)
+
+    def V(j):           # built when displayed: a copy exists only after its copy step ran
+        return build(vals[j], tags)
+
     log: list = []
 
     def base(value):
@@ -369,7 +421,8 @@ def execute(case):
     finally:
         sys.displayhook = real
     obs = {"hook": classify_hook(final, base, mon.wrappers),
-           "tags": [[classify_hook(t.prev_displayhook, base, mon.wrappers),
+           "tags": [[["none"], []] if t is None else
+                    [classify_hook(t.prev_displayhook, base, mon.wrappers),
                      [canon_obj(c, tags) for c in t.children]] for t in tags],
            "log": [canon_obj(x, tags) for x in log],
            "outcome": outcome}
@@ -410,14 +463,32 @@ class Unspecified(Exception):
     pass
 
 
-def spec_run(case):
-    kids = [list(map(list, ks)) for ks in case["kids"]]
+def block_numbers(prog, path=(), acc=None):
+    """path of every with-statement -> its number (lexical preorder, as compile_prog numbers them)"""
+    acc = {} if acc is None else acc
+    for i, st in enumerate(prog):
+        if st[0] == "W":
+            acc[path + (i,)] = len(acc)
+            block_numbers(st[2], path + (i,), acc)
+    return acc
+
+
+def spec_run(case, entered_blocks):
+    """The statement, with lexical receivers.  Where the statement is silent -- a with-statement
+    on a tag whose block has finished, or on a copy of a tag that had been entered -- both
+    behaviours are admitted and the one the implementation chose (entered_blocks[n]) is
+    followed: refusal = an exception with nothing changed; acceptance = an ordinary block of
+    that very tag."""
+    ntag = len(case["kids"]) + case.get("ncopy", 0)
+    kids = [list(map(list, ks)) for ks in case["kids"]] + [[] for _ in range(case.get("ncopy", 0))]
     log: list = []
     active: list[int] = []
     exited: set[int] = set()
+    numbers = block_numbers(case["prog"])
+    silent = [False]
 
-    def go(stmts, recv):
-        for st in stmts:
+    def go(stmts, recv, path):
+        for i, st in enumerate(stmts):
             if st[0] == "D":
                 if recv is None:
                     log.append(val_canon(st[1]))
@@ -428,14 +499,23 @@ def spec_run(case):
                     kids[recv] += cs
             elif st[0] == "R":
                 return ["user"]
+            elif st[0] == "K":
+                kids[st[2]] = list(kids[st[1]])
+                if st[1] in exited or st[1] in active:
+                    exited.add(st[2])
             else:
                 t = st[1]
                 if t in active:
                     return ["reenter"]
                 if t in exited:
-                    raise Unspecified()      # the statement does not speak about a second use
+                    silent[0] = True
+                    choice = entered_blocks.get(numbers[path + (i,)])
+                    if choice is None:
+                        raise Unspecified()
+                    if not choice:
+                        return ["reenter"]
                 active.append(t)
-                o = go(st[2], t)
+                o = go(st[2], t, path + (i,))
                 active.pop()
                 exited.add(t)
                 if recv is None:
@@ -447,10 +527,11 @@ def spec_run(case):
         return ["normal"]
 
     try:
-        out = go(case["prog"], None)
+        out = go(case["prog"], None, ())
     except Unspecified:
         return None
-    return {"kids": kids, "log": log, "outcome": out}
+    assert len(kids) == ntag
+    return {"kids": kids, "log": log, "outcome": out, "silent": silent[0]}
 
 
 def outcome_ok(expected, got):
@@ -468,8 +549,10 @@ def rand_leaf(rng, ntags, cur=None):
         return ["T", trees.rand_text(rng, 5)]
     if r < 0.40:
         return ["H", trees.rand_text(rng, 5)]
-    if r < 0.50:
+    if r < 0.44:
         return ["R", trees.rand_text(rng, 5)]
+    if r < 0.50:      # an instance of the class Maybe that carries _repr_html_ itself
+        return ["R", trees.rand_text(rng, 5), "inst"]
     if r < 0.62:
         x = rng.choice([0, 1, -7, 10 ** 20, 1.5, -0.0, 1e22, float("inf"), True, False])
         return ["I", "bool" if isinstance(x, bool) else "int" if isinstance(x, int) else "float", repr(x)]
@@ -565,7 +648,44 @@ def rand_case(rng, maxdepth, faulty):
         prog = g.body(0, [])
     while not prog:
         prog = g.body(0, [])
-    return {"hook": "base", "kids": [rand_kids(rng) for _ in range(ntags)], "prog": prog}
+    case = {"hook": "base", "kids": [rand_kids(rng) for _ in range(ntags)], "prog": prog}
+    if rng.random() < 0.45:
+        add_copies(rng, case, g)
+    return case
+
+
+def add_copies(rng, case, g):
+    """top-level copy steps: T[dst] = copy of T[src] (src not used yet, or its block finished,
+    or itself a copy), then the copy used in a with-block of its own, displayed, or used
+    nested in a later block; sometimes the original is used after the copy"""
+    prog = case["prog"]
+    ntags = len(case["kids"])
+    ncopy = rng.choice([1, 1, 2, 3])
+    lo = 0
+    for j in range(ncopy):
+        dst = ntags + j
+        # earlier copy steps sit at positions < lo, so every earlier copy exists here
+        src = rng.randrange(ntags + j) if rng.random() < 0.8 else rng.randrange(ntags)
+        at = rng.randrange(lo, len(prog) + 1)
+        lo = at + 1
+        prog.insert(at, ["K", src, dst, rng.choice(["copy", "tagify"])])
+        pos = at + 1
+        for _ in range(rng.choice([1, 1, 2])):
+            r = rng.random()
+            if r < 0.6:
+                body = g.body(g.maxdepth - 1, [dst]) if rng.random() < 0.5 else \
+                    [["D", rand_value(rng, ntags, dst, p_bad=g.p_bad)] for _ in range(rng.choice([1, 2, 3]))]
+                st = ["W", dst, body]
+            elif r < 0.75:
+                st = ["W", rng.randrange(ntags), [["D", ["T", "o"]], ["W", dst, [["D", ["T", "in copy"]]]]]]
+            elif r < 0.9:
+                st = ["W", src, [["D", ["T", "orig"]]]]
+            else:
+                st = ["D", ["G", dst]]
+            pos = rng.randrange(pos, len(prog) + 1)
+            prog.insert(pos, st)
+            pos += 1
+    case["ncopy"] = ncopy
 
 
 def positions(prog, path=()):
@@ -611,7 +731,7 @@ def inject_fault(rng, case):
         st = ["W", rng.choice(stack), [["D", ["T", "never"]]]]
     else:
         st = ["W", rng.randrange(ntags), [["D", ["T", "again"]]]]
-    return {"hook": "base", "kids": case["kids"], "prog": insert_at(prog, path, idx, st)}, kind
+    return {**case, "prog": insert_at(prog, path, idx, st)}, kind
 
 
 def small_programs(size, leaves, tags, depth):
@@ -673,9 +793,9 @@ def check_cases(ctx: Ctx, name: str, cases: list, kind) -> None:
         if obs["hook"] != ["base"]:
             ctx.violation("after the program sys.displayhook is not the hook installed before it",
                           c, {"impl_output": obs["hook"], "expected": ["base"]})
-        want = spec_run(c)
+        want = spec_run(c, mon.entered_blocks)
         if want is None:
-            continue            # a finished tag used again: behaviour not fixed by the statement
+            continue
         got = {"kids": [t[1] for t in obs["tags"]], "log": obs["log"]}
         if not outcome_ok(want["outcome"], obs["outcome"]):
             ctx.violation("wrong outcome (exception kind / propagation)", c,
@@ -687,7 +807,7 @@ def check_cases(ctx: Ctx, name: str, cases: list, kind) -> None:
         elif got["log"] != want["log"]:
             ctx.violation("values received by the outermost hook differ", c,
                           {"impl_output": got["log"], "expected": want["log"]})
-        sv = dec_spec(m[1])
+        sv = None if want["silent"] else dec_spec(m[1])   # sem follows the code where the statement is silent
         if sv is not None and (sv["kids"] != got["kids"] or sv["log"] != got["log"]
                                or sv["outcome"] != obs["outcome"]):
             ctx.violation("implementation differs from the extracted specification sem", c,
@@ -736,6 +856,18 @@ FIXED = [
                         ["D", ["I", "int", "3"]], ["D", ["H", "<x>"]], ["D", ["R", "<y>"]],
                         ["D", ["L", "list", [["R", "<z>"], ["H", "<w>"], ["N"], ["L", "tuple", []]]]],
                         ["D", ["C", 1]], ["D", ["M", 1]], ["D", ["I", "bool", "True"]]]]]},
+    # copies: before first use (both usable, independent), after the block finished, nested use
+    {"hook": "base", "kids": [[["T", "k"]], []], "ncopy": 2,
+     "prog": [["K", 0, 2, "copy"], ["W", 2, [["D", ["T", "a"]]]], ["W", 0, [["D", ["T", "b"]]]],
+              ["K", 0, 3, "tagify"], ["W", 1, [["W", 3, [["D", ["T", "c"]]]]]]]},
+    {"hook": "base", "kids": [[]], "ncopy": 1,
+     "prog": [["W", 0, [["D", ["T", "a"]]]], ["K", 0, 1, "copy"], ["W", 1, [["D", ["T", "b"]]]]]},
+    # one class, some instances with _repr_html_ / tagify as instance attributes
+    {"hook": "base", "kids": [[], []],
+     "prog": [["W", 0, [["D", ["R", "<m>", "inst"]], ["D", ["C", 3]], ["D", ["L", "list", [["R", "<n>", "inst"]]]]]],
+              ["W", 1, [["D", ["R", "<o>", "inst"]], ["D", ["B", "maybe"]]]]]},
+    {"hook": "base", "kids": [[], []],
+     "prog": [["W", 0, [["D", ["B", "maybet"]]]], ["W", 1, [["D", ["C", 4]], ["D", ["R", "<p>", "inst"]]]]]},
     # sys.displayhook = None at the start (correspondence only)
     {"hook": "none", "kids": [[], []], "prog": [["W", 0, [["W", 0, [["D", ["T", "a"]]]], ["D", ["T", "b"]]]]]},
     {"hook": "none", "kids": [[]], "prog": [["D", ["T", "a"]]]},
@@ -753,7 +885,12 @@ def run(ctx: Ctx) -> None:
                 "chosen point (user exception, invalid value incl. Ellipsis inside a list, re-entering an "
                 "enclosing tag, using a finished tag again); (3) programs with faults sprinkled at random; "
                 "(4) every program with at most 3 (thorough 5) statements over 7 leaves and 2 tags; "
-                "(5) a few programs started with sys.displayhook = None (correspondence only). "
+                "(5) a few programs started with sys.displayhook = None (correspondence only); (6) in 45% of the "
+                "random programs, top-level copy steps T[new] = copy.copy(T[src]) or T[src].tagify() (src unused so "
+                "far, finished, or itself a copy) followed by with-blocks on the copy (own block, nested, "
+                "displayed) and on the original, plus all small programs around one copy step; displayed values "
+                "include instances of ONE class only some of which carry _repr_html_ (resp. tagify) as an "
+                "instance attribute, interleaved within and across programs. "
                 "Non-trivial = contains at least one with-block; distinct = distinct canonical programs.")
     ctx.assumptions = [
         "the extracted OCaml model behaves as the Gallina model (ExtrOcamlBasic only)",
@@ -763,9 +900,13 @@ def run(ctx: Ctx) -> None:
         "sys.displayhook holds a callable when the outermost block is entered (with None stored there "
         "restoration fails, theorem C17_hook_hypothesis_needed; such starts are compared with the model only)",
         "tags are identified by object identity; numbers are passed to the model as Python's own str(x)",
-        "a Tag whose block has finished cannot be entered again (RuntimeError, theorem "
-        "C17_reenter_after_exit): the statement is silent about it, the oracle skips such programs' "
-        "children/outcome comparison but still checks hook restoration around every block",
+        "a Tag whose block has finished, and a copy of a Tag that had been entered, cannot be entered "
+        "(RuntimeError, theorems C17_reenter_after_exit / C17_session_children): the statement is silent "
+        "about it; the oracle admits refusal (an exception, nothing changed) and acceptance (then an ordinary "
+        "block of exactly that tag object) and follows the implementation's choice; every other check "
+        "(restoration, exactly-once delivery of that same object, children only in the tag named in the "
+        "with-statement) still applies",
+        "a copy is taken with copy.copy(t), or t.tagify() when no child would be expanded or replaced by it",
     ]
     ctx.proof()
 
@@ -797,13 +938,25 @@ def run(ctx: Ctx) -> None:
         lv = leaves if n <= 3 else leaves[:4]
         for p in small_programs(n, lv, [0, 1], 3):
             small.append({"hook": "base", "kids": [[], []], "prog": p})
+    n_plain = len(small)
+    lv2 = [["D", ["T", "a"]], ["R"], ["D", ["B", "maybe"]]]
+    for how in ("copy", "tagify"):
+        for n1 in range(0, 3):
+            for pre in small_programs(n1, lv2, [0], 2):
+                for n2 in range(1, ctx.budget(2, 3) + 1):
+                    for post in small_programs(n2, lv2 + [["D", ["G", 2]]], [0, 2], 2):
+                        if nesting(post) == 0:
+                            continue
+                        small.append({"hook": "base", "kids": [[["T", "k"]], []], "ncopy": 1,
+                                      "prog": pre + [["K", 0, 2, how]] + post})
+    ctx.extra["small_scope_with_copy"] = len(small) - n_plain
     ctx.extra["exhaustive_small_scope"] = (f"all {len(small)} programs with <= {top} statements, 2 tags, "
                                            "nesting <= 3")
     check_cases(ctx, "all small programs", small, "small scope")
 
     none_start = []
     for c in many[: ctx.budget(150, 1500)]:
-        none_start.append({"hook": "none", "kids": c["kids"], "prog": c["prog"]})
+        none_start.append({**c, "hook": "none"})
     check_cases(ctx, "programs started with sys.displayhook = None", none_start, "hook None at start")
 
     ctx.obligation("sys.displayhook is restored to the interpreter's own hook after the run",
